@@ -259,7 +259,7 @@ def enumerate_single_edits(ctx, out, stats, allassign):
                 return
 
 
-def enumerate_shared(ctx, out, stats, allassign, mi, prefix, shared, cap=16):
+def enumerate_shared(ctx, out, stats, allassign, mi, prefix, shared, cap=12):
     """a cells shared by several callers (struct_props.shared_callee_sequences, read off the dependency graph of the
     all-cached model): everything evaluated; ONE caller is invalidated on its own (cleared, one element cleared, a
     reference only it reads by attribute path changed); then an edit that must reach what the OTHER callers hold
@@ -311,8 +311,8 @@ def enumerate_flips(ctx, out, stats, allassign, mi, motif, prefix, refed):
                 assignments += [asg({i, j}), asg({j})]
             else:
                 assignments += [allassign[0]]       # everything cached, n switched OFF
-        # quick tier: every edit of an existing reference after the extended motifs, a seeded sample of 3 after the others
-        es = refed if ctx.tier == "thorough" or mi >= len(S.MOTIFS) else rng.sample(refed, min(len(refed), 3))
+        # quick tier: a seeded sample of the edits of existing references: 6 after the extended motifs, 3 after the others
+        es = refed if ctx.tier == "thorough" else rng.sample(refed, min(len(refed), 6 if mi >= len(S.MOTIFS) else 3))
         for e in es:
             variants = [[], [["evalall"]]]
             if ctx.tier != "thorough":
@@ -350,7 +350,7 @@ def unhashable(out, stats):
 
 def run(ctx, out):
     stats = collections.Counter()
-    n = ctx.n(54, 600)
+    n = ctx.n(48, 600)
     allassign = list(itertools.product([True, False], repeat=len(W.CELLS)))
     nontrivial, samples = 0, []
     hists = S.load_corpus("C09")
